@@ -12,12 +12,13 @@ from mc.run import Stats, explore
 
 ASSUME = [
     "UTC projects, default calendar; calendar day / ISO week (date.isocalendar) on the project clock",
-    "limit values dailymax {1h,1.5h,1.6h,2h,2.5h,3.5h,4h,90min,1d}, weeklymax {5h,7.5h,10h,10.6h,16h,450min,1d,0.5w} (fractions of a slot in both rounding directions; every unit: min, h, d = 8 h, w = 40 h); resolutions {60,30,15} min",
+    "limit values dailymax {1h,1.5h,1.6h,2h,2.5h,3.5h,4h,90min,1d}, weeklymax {5h,7.5h,10h,10.6h,16h,450min,1d,0.5w} (fractions of a slot in both rounding directions; every unit: min, h, d = 8 h, w = 40 h), and a daily plus a weekly limit on the same entity {2h+5h, 1.5h+7.5h, 4h+10h, 1h+16h}; resolutions {60,30,15} min",
     "the whole scheduled horizon is aggregated, including the part beyond the declared project end that the scheduler adds",
     "limits count booked working time of every member of a limited group / every task below a limited task (person-time)",
 ]
 DAILY = ["1h", "1.5h", "1.6h", "2h", "2.5h", "3.5h", "4h", "90min", "1d"]
 WEEKLY = ["5h", "7.5h", "10h", "10.6h", "16h", "450min", "1d", "0.5w"]
+BOTH = ["2h+5h", "1.5h+7.5h", "4h+10h", "1h+16h"]   # a daily AND a weekly limit on the same entity (either may be the binding one)
 PLACES = ["res", "group", "grandgroup", "task", "container", "grandcontainer", "restrict", "team", "groupteam", "midslot", "midslot-group", "teampre"]
 HORIZONS = {
     # name: (start, dur, effort hours for a weekly 5h / daily 2h limit)
@@ -33,7 +34,7 @@ HORIZONS = {
 def universe(tier):
     Ls = (60, 30, 15) if tier == "thorough" else (60, 30)
     for hz in HORIZONS:
-        for kind, vals in (("dailymax", DAILY), ("weeklymax", WEEKLY)):
+        for kind, vals in (("dailymax", DAILY), ("weeklymax", WEEKLY), ("both", BOTH)):
             for val in vals:
                 for place in PLACES:
                     for L in Ls:
@@ -58,7 +59,11 @@ def to_spec(it):
     start, dur = HORIZONS[it["hz"]]
     L = it["L"]
     kind, val = it["kind"], it["val"]
-    per_week = _hours(val) * (5 if kind == "dailymax" else 1)
+    if kind == "both":
+        dval, wval = val.split("+")
+        per_week = min(_hours(dval) * 5, _hours(wval))
+    else:
+        per_week = _hours(val) * (5 if kind == "dailymax" else 1)
     if it["hz"] == "fits":
         eff_h = min(per_week * 1.5, 30)
     elif it["hz"] == "overrun":
@@ -69,7 +74,7 @@ def to_spec(it):
         eff_h = per_week * 3.3
     eff_min = int(eff_h * 60)
     spec = {"start": start, "dur": dur, "res_min": L if L != 60 else None, "alap": it["alap"]}
-    lim = {kind: val}
+    lim = {kind: val} if kind != "both" else {"dailymax": dval, "weeklymax": wval}
     r1, r2 = {"id": "r1"}, {"id": "r2"}
     x = {"id": "x", "effort": eff_min, "alloc": ["r1"]}
     tasks = [x]
@@ -95,7 +100,7 @@ def to_spec(it):
         x["effort"] = eff_min // 2
         tasks = [{"id": "box", "limits": lim, "children": [x, {"id": "y", "effort": eff_min // 2, "alloc": ["r2"]}]}]
     elif place == "restrict":
-        x["limits"] = {kind: (val, ["r1"])}
+        x["limits"] = {k: (v, ["r1"]) for k, v in lim.items()}
     elif place == "team":
         x["alloc"] = ["r1", "r2"]
         x["effort"] = eff_min // 2
